@@ -10,6 +10,7 @@ import Mathlib.Tactic.Ring
 import Mathlib.Tactic.FieldSimp
 import Mathlib.Tactic.SplitIfs
 import RQ.Lemmas.WorldB
+import RQ.Lemmas.WorldN
 
 namespace RQ.Props.C04
 open RQ.Q
@@ -344,5 +345,22 @@ theorem world_books_live (w : World) (ins : List WIn) (h : RQ.Lemmas.WorldB.Book
 theorem world_nothing_rests_after_close (w : World) (ins : List WIn) :
     ((w.run ins).1.step .afterTrading).1.openOrders = [] :=
   RQ.Lemmas.WorldB.afterTrading_book_empty _
+
+
+/-- **no order is ever lost or duplicated, in the whole system**: from empty books, for EVERY input list whose submitted ids are pairwise
+different (the order-id counter), at the end of the run — hence, by `WorldB.run_append`, after every prefix — the ids resting in the two books
+together with the ids that have left them are exactly the ids the broker announced with ORDER_PENDING_NEW, each once -/
+theorem world_orders_conserved (w : World) (ins : List WIn) (ho : w.openOrders = []) (ha : w.auctionOrders = []) (hf : w.finals = [])
+    (hids : (RQ.Lemmas.WorldC.submittedIds ins).Nodup) :
+    (RQ.Lemmas.WorldC.bookIds (w.run ins).1 ++ RQ.Lemmas.WorldN.finalIds (w.run ins).1).Perm (RQ.Lemmas.WorldN.acceptedIds (w.run ins).2) ∧
+    (RQ.Lemmas.WorldC.bookIds (w.run ins).1 ++ RQ.Lemmas.WorldN.finalIds (w.run ins).1).Nodup :=
+  RQ.Lemmas.WorldN.run_orders_conserved w ins ho ha hf hids
+
+/-- … and whenever the books are empty (after every close of a day-structured run) every accepted order is final -/
+theorem world_all_accepted_orders_final_when_books_empty (w : World) (ins : List WIn) (ho : w.openOrders = []) (ha : w.auctionOrders = [])
+    (hf : w.finals = []) (hids : (RQ.Lemmas.WorldC.submittedIds ins).Nodup)
+    (ho' : (w.run ins).1.openOrders = []) (ha' : (w.run ins).1.auctionOrders = []) :
+    (RQ.Lemmas.WorldN.finalIds (w.run ins).1).Perm (RQ.Lemmas.WorldN.acceptedIds (w.run ins).2) ∧ ∀ o ∈ (w.run ins).1.finals, o.isFinal = true :=
+  RQ.Lemmas.WorldN.empty_books_all_final w ins ho ha hf hids ho' ha'
 
 end RQ.Props.C04
